@@ -204,6 +204,9 @@ CONV = [
 ]
 
 
+IMPL_TIME_LIMIT = 20      # seconds per decompress call (normal calls take milliseconds)
+
+
 def run_impl(chunks, cap, conv=bytes):
     """drive the real decompress; observe frames handed to the codec, the write addresses, the per-chunk
     progress, the returned length and the output buffer"""
@@ -218,11 +221,21 @@ def run_impl(chunks, cap, conv=bytes):
             yield conv(c)
             per.append(len(REC.frames))
 
+    import signal
+
+    def _alarm(signum, frame):
+        raise TimeoutError('decompress did not return within %d s' % IMPL_TIME_LIMIT)
+
+    # a mistaken frame length can make the reassembly loop spin (and allocate) forever: bound every call
+    old = signal.signal(signal.SIGALRM, _alarm)
+    signal.setitimer(signal.ITIMER_REAL, IMPL_TIME_LIMIT)
     try:
         n = BloscCompressor().decompress(gen(), memoryview(buf)[:cap])
     except Exception as e:   # noqa: BLE001 - whatever the real code raises is an observation
         return {'err': type(e).__name__ + ': ' + str(e)[:80]}
     finally:
+        signal.setitimer(signal.ITIMER_REAL, 0)
+        signal.signal(signal.SIGALRM, old)
         base = REC.base
         REC.base = None
     return {
